@@ -215,9 +215,11 @@ for it in range(npairs):
     hist = dict(it=it, ncen=ncen, shells=[(s.icenter, s.angmoms.tolist(), s.kinds.tolist(), s.exponents.round(3).tolist()) for s in b0.shells])
     cases += 1
     S = compute_overlap(b0, coords)
-    ref = oo.apply_conventions(oo.apply_conventions(oo.overlap_oracle(b0, coords), b0, 0), b0, 1)
-    tol = 1e-10 * max(1.0, np.abs(ref).max()) + 2e-14
+    full, dropped = oo.overlap_oracle(b0, coords, screened=1e-15)
+    ref = oo.apply_conventions(oo.apply_conventions(full - dropped, b0, 0), b0, 1)
+    tol = 1e-11 * max(1.0, np.abs(ref).max()) + 2e-14
     if S.shape != ref.shape or np.abs(S - ref).max() > tol: fails.append((hist, "single-basis overlap differs from the inner products of the documented functions", float(np.abs(S - ref).max()) if S.shape == ref.shape else "shape"))
+    if np.abs(dropped).max() > 1e-13: fails.append((hist, "prefactor screening leaves out contributions far above the 1e-15 threshold", float(np.abs(dropped).max())))
     if np.abs(S - S.T).max() > 1e-12 * max(1, np.abs(S).max()): fails.append((hist, "single-basis overlap is not symmetric"))
     w = np.linalg.eigvalsh((S + S.T) / 2)
     if w.min() < -1e-9 * max(1, np.abs(S).max()): fails.append((hist, "single-basis overlap is not positive semidefinite", float(w.min())))
@@ -231,9 +233,11 @@ for it in range(npairs):
     cases += 1
     S01 = compute_overlap(b0, coords, b1, coords1)
     S10 = compute_overlap(b1, coords1, b0, coords)
-    ref01 = oo.apply_conventions(oo.apply_conventions(oo.overlap_oracle(b0, coords, b1, coords1), b0, 0), b1, 1)
-    tol = 1e-10 * max(1.0, np.abs(ref01).max()) + 2e-14
+    full01, dropped01 = oo.overlap_oracle(b0, coords, b1, coords1, screened=1e-15)
+    ref01 = oo.apply_conventions(oo.apply_conventions(full01 - dropped01, b0, 0), b1, 1)
+    tol = 1e-11 * max(1.0, np.abs(ref01).max()) + 2e-14
     if S01.shape != ref01.shape or np.abs(S01 - ref01).max() > tol: fails.append((hist, "two-basis overlap differs from the inner products of the documented functions", float(np.abs(S01 - ref01).max()) if S01.shape == ref01.shape else "shape"))
+    if np.abs(dropped01).max() > 1e-13: fails.append((hist, "prefactor screening leaves out contributions far above the 1e-15 threshold", float(np.abs(dropped01).max())))
     if np.abs(S01 - S10.T).max() > 1e-12 * max(1, np.abs(S01).max()): fails.append((hist, "exchanging the two bases does not transpose the matrix"))
     # changing conventions permutes / sign-flips accordingly
     b0h = MolecularBasis(b0.shells, HORTON2_CONVENTIONS, "L2")
@@ -256,7 +260,7 @@ def run_bounded(chk):
         chk.fault(f"bounded driver crashed: {out.stderr[-1500:]}")
         return
     res = json.loads(out.stdout.strip().splitlines()[-1])
-    bound = f"{npairs} seeded basis pairs: 1..4 centers incl. coincident, 1..4 shells, l<=5 Cartesian / pure, 1..4 primitives with exponents 1e-2..1e3 in any order, generalized contractions, HORTON2 / CCA / random signed conventions; tolerance 1e-10 relative"
+    bound = f"{npairs} seeded basis pairs: 1..4 centers incl. coincident, 1..4 shells, l<=5 Cartesian / pure, 1..4 primitives with exponents 1e-2..1e3 in any order, generalized contractions, HORTON2 / CCA / random signed conventions; tolerance 1e-11 relative against the oracle minus what prefactor screening (1e-15) leaves out; what is left out must itself stay below 1e-13"
     for kind, example in sorted(res["kinds"].items()):
         script = BOUNDED.replace("seed, npairs = int(sys.argv[1]), int(sys.argv[2])", f"seed, npairs = {chk.seed}, {npairs}").replace("sys.path.insert(0, sys.argv[3])", f"sys.path.insert(0, {bdir!r})").replace(_TAIL, f"print(sig.get({kind!r}))\nif {kind!r} in sig:\n    print('REPRODUCED'); sys.exit(1)")
         chk.add_bounded(f"overlap.{kind}", bound, res["cases"], [example], replay_script=script)
